@@ -474,6 +474,34 @@ class World:
         if rng.random() < 0.3:
             self.add(upload_get(rng.choice(self.repos), rng.choice(["nosuchsession", sid, "x"])))
 
+    def interrupted_upload(self):
+        """a session that is cancelled or expires while the body of a PATCH/PUT on it is still arriving"""
+        rng = self.rng
+        repo = self.repo()
+        data = self.content() + b"-streamed-" + bytes([65 + rng.randrange(26)]) * rng.randrange(1, 30)
+        self.contents.add(data)
+        k = self.add(upload_post(repo))
+        sid = "$SID%d$" % k
+        size = 0
+        if rng.random() < 0.5:
+            p = data[:rng.randrange(0, len(data))]
+            self.add(upload_patch(repo, sid, None, state_token(0), p))
+            size = len(p)
+        rest = data[size:]
+        d = dg(self.alg(), data)
+        if rng.random() < 0.7:
+            outer = upload_put(repo, sid, None, d, state_token(size), rest, unknown=rng.random() < 0.5)
+        else:
+            outer = upload_patch(repo, sid, None, state_token(size), rest, unknown=rng.random() < 0.5)
+        mids = [upload_delete(repo, sid)] if rng.random() < 0.6 else expire_sessions(repo)
+        # the interruption happens strictly before the last byte of the body has been delivered
+        self.add(split(outer, rng.randrange(0, max(1, len(rest))), mids))
+        self.add(upload_get(repo, sid))
+        self.add(blob_get(repo, d))
+        for a in ALGS:
+            if rng.random() < 0.3:
+                self.add(blob_get(repo, dg(a, data[:size])))
+
     def probe_repo(self, repo, mark):
         """a fixed set of reads of one repository, used to compare the observable state around a request"""
         st = [tag_list(repo)]
@@ -569,7 +597,10 @@ class World:
             elif k == "bdel":
                 self.delete_blob()
             elif k == "sess":
-                self.session_misc()
+                if self.rng.random() < self.profile.get("interrupt", 0.15):
+                    self.interrupted_upload()
+                else:
+                    self.session_misc()
         return self
 
 
